@@ -22,7 +22,14 @@ import (
 	"verifharness/drv"
 )
 
-const verifRoot = "/verif"
+// verifRoot is the directory holding run.sh (VERIF_ROOT is exported by run.sh so that a snapshot
+// of /verif elsewhere on disk works on its own files).
+var verifRoot = func() string {
+	if p := os.Getenv("VERIF_ROOT"); p != "" {
+		return p
+	}
+	return "/verif"
+}()
 
 type job struct {
 	Flavour string
@@ -89,21 +96,51 @@ func writeModfile(fl string) (string, error) {
 	return mf, nil
 }
 
+// writeOverlay regenerates the legacy (pre-go1.21) unsafex variant from the tree under test and
+// returns a go build overlay that puts it in place of the stub in mon/legacyunsafex.
+func writeOverlay() (string, error) {
+	src, err := os.ReadFile(filepath.Join(repoPath(), "unsafex", "unsafex_go100.go"))
+	if err != nil {
+		return "", fmt.Errorf("legacy unsafex source: %v", err)
+	}
+	var out []string
+	for _, l := range strings.Split(string(src), "\n") {
+		if strings.HasPrefix(l, "//go:build") || strings.HasPrefix(l, "// +build") {
+			continue
+		}
+		if strings.HasPrefix(l, "package ") {
+			l = "package legacyunsafex"
+		}
+		out = append(out, l)
+	}
+	dir := filepath.Join(verifRoot, ".work", "mods", fmt.Sprint(os.Getpid()))
+	os.MkdirAll(dir, 0o755)
+	gen := filepath.Join(dir, "legacy_gen.go")
+	if err := os.WriteFile(gen, []byte(strings.Join(out, "\n")), 0o644); err != nil {
+		return "", err
+	}
+	ov := map[string]map[string]string{"Replace": {filepath.Join(harnessDir(), "mon", "legacyunsafex", "legacy_stub.go"): gen}}
+	b, _ := json.Marshal(ov)
+	p := filepath.Join(dir, "overlay.json")
+	return p, os.WriteFile(p, b, 0o644)
+}
+
 func buildFlavour(fl string) (string, error) {
 	def, ok := flavours[fl]
 	if !ok {
 		return "", fmt.Errorf("unknown flavour %s", fl)
 	}
-	suffix := ""
-	if os.Getenv("VERIF_REPO") != "" {
-		suffix = fmt.Sprintf("-alt%d", os.Getpid())
-	}
-	out := filepath.Join(binDir(), def.bin+suffix)
+	// binaries are per driver process: parallel invocations (and self-tests on scratch trees) never share one
+	out := filepath.Join(binDir(), fmt.Sprintf("%s-%d", def.bin, os.Getpid()))
 	mf, err := writeModfile(fl)
 	if err != nil {
 		return "", err
 	}
-	args := []string{"build", "-modfile=" + mf}
+	ov, err := writeOverlay()
+	if err != nil {
+		return "", err
+	}
+	args := []string{"build", "-modfile=" + mf, "-overlay=" + ov}
 	args = append(args, def.build...)
 	args = append(args, "-o", out, "./cmd/vh")
 	cmd := exec.Command(def.goBin, args...)
@@ -204,14 +241,12 @@ func drive(args []string) int {
 		defer os.RemoveAll(workdir)
 	}
 	defer os.RemoveAll(filepath.Join(verifRoot, ".work", "mods", fmt.Sprint(os.Getpid())))
-	if os.Getenv("VERIF_REPO") != "" {
-		defer func() {
-			m, _ := filepath.Glob(filepath.Join(binDir(), fmt.Sprintf("*-alt%d", os.Getpid())))
-			for _, f := range m {
-				os.Remove(f)
-			}
-		}()
-	}
+	defer func() {
+		m, _ := filepath.Glob(filepath.Join(binDir(), fmt.Sprintf("vh*-%d", os.Getpid())))
+		for _, f := range m {
+			os.Remove(f)
+		}
+	}()
 
 	// 1. build flavours (sequentially: the go build cache is shared, builds are parallel inside)
 	bins := map[string]string{}
